@@ -27,7 +27,7 @@ package treeset
 //@   modifies each x like set.tree.Root where x.tr == set.tree : x.Left, x.Right, x.Parent, x.a, x.b, x.color, x.Key, x.Value, x.pos
 //@   ensures [C04 C17] Inv(set) && Config(set)
 //@   ensures owners: forall x like set.tree.Root :: fresh(x) ==> x.tr == set.tree || x.tr == nil
-//@   ensures [C04] members: forall x like keylike(set) :: Mem(set, x) <==> old(Mem(set, x)) || (exists j :: 0 <= j && j < len(items) && set.tree.Comparator(x, items[j]) == 0)
+//@   ensures [C04] members: len(items) != 1 ==> (forall x like keylike(set) :: Mem(set, x) <==> old(Mem(set, x)) || (exists j :: 0 <= j && j < len(items) && set.tree.Comparator(x, items[j]) == 0))
 //@   ensures [C04] single: len(items) == 1 ==> (forall x like keylike(set) :: Mem(set, x) <==> old(Mem(set, x)) || set.tree.Comparator(x, items[0]) == 0)
 //@   ensures [C04] all-added: forall j :: 0 <= j && j < len(items) ==> Mem(set, items[j])
 //@   ensures [C04] N(set) >= old(N(set)) && N(set) <= old(N(set)) + len(items) && (len(items) == 0 ==> N(set) == old(N(set)))
@@ -100,6 +100,8 @@ package treeset
 //@   assert backedge 2: forall x like keylike(set) :: set.tree.Comparator(x, KeyAt(another, it.index)) == 0 ==> (Mem(set, x) ==> Mem(set, KeyAt(another, it.index)))
 //@   ensures [C13 C17 C18] fresh(result) && Inv(result) && fresh(result.tree) && result.tree.Comparator == set.tree.Comparator
 //@   ensures [C13] forall x like keylike(set) :: Mem(result, x) <==> Mem(set, x) && Mem(another, x)
+//@   focus loop1:inv-keep:3* : pre:*, loop1:inv:*, Set.Add#*:single, Set.Contains#*, Iterator.Next#*, Iterator.Value#*, lemma:backedge-1#*
+//@   focus loop2:inv-keep:3* : pre:*, loop2:inv:*, Set.Add#*:single, Set.Contains#*, Iterator.Next#*, Iterator.Value#*, lemma:backedge-2#*
 //@   loop 1:
 //@     invariant ItInv(it) && fresh(it) && fresh(it.iterator) && it.tree == set.tree && Inv(result) && fresh(result) && fresh(result.tree) && result.tree.Comparator == set.tree.Comparator
 //@     invariant forall x like set.tree.Root :: fresh(x) ==> x.tr == result.tree || x.tr == nil
@@ -124,6 +126,8 @@ package treeset
 //@   assert backedge 2: forall x like keylike(set) :: set.tree.Comparator(x, KeyAt(another, it.index)) == 0 ==> (Mem(set, x) ==> Mem(set, KeyAt(another, it.index)))
 //@   ensures [C13 C17 C18] fresh(result) && Inv(result) && fresh(result.tree) && result.tree.Comparator == set.tree.Comparator
 //@   ensures [C13] forall x like keylike(set) :: Mem(result, x) <==> Mem(set, x) || Mem(another, x)
+//@   focus loop1:inv-keep:3* : pre:*, loop1:inv:*, Set.Add#*:single, Set.Contains#*, Iterator.Next#*, Iterator.Value#*, lemma:backedge-1#*
+//@   focus loop2:inv-keep:3* : pre:*, loop2:inv:*, Set.Add#*:single, Set.Contains#*, Iterator.Next#*, Iterator.Value#*, lemma:backedge-2#*
 //@   loop 1:
 //@     invariant ItInv(it) && fresh(it) && fresh(it.iterator) && it.tree == set.tree && Inv(result) && fresh(result) && fresh(result.tree) && result.tree.Comparator == set.tree.Comparator
 //@     invariant forall x like set.tree.Root :: fresh(x) ==> x.tr == result.tree || x.tr == nil
@@ -144,6 +148,8 @@ package treeset
 //@   assert backedge 1: forall x like keylike(set) :: set.tree.Comparator(x, KeyAt(set, it.index)) == 0 ==> (Mem(another, x) ==> Mem(another, KeyAt(set, it.index)))
 //@   ensures [C13 C17 C18] fresh(result) && Inv(result) && fresh(result.tree) && result.tree.Comparator == set.tree.Comparator
 //@   ensures [C13] forall x like keylike(set) :: Mem(result, x) <==> Mem(set, x) && !Mem(another, x)
+//@   focus loop1:inv-keep:3* : pre:*, loop1:inv:*, Set.Add#*:single, Set.Contains#*, Iterator.Next#*, Iterator.Value#*, lemma:backedge-1#*
+//@   focus loop2:inv-keep:3* : pre:*, loop2:inv:*, Set.Add#*:single, Set.Contains#*, Iterator.Next#*, Iterator.Value#*, lemma:backedge-2#*
 //@   loop 1:
 //@     invariant ItInv(it) && fresh(it) && fresh(it.iterator) && it.tree == set.tree && Inv(result) && fresh(result) && fresh(result.tree) && result.tree.Comparator == set.tree.Comparator
 //@     invariant forall x like set.tree.Root :: fresh(x) ==> x.tr == result.tree || x.tr == nil
